@@ -525,14 +525,11 @@ func c25Run(raw json.RawMessage) (res Result, err error) {
 		}
 	}
 	if !res.Holds && obs.Code == 0 && len(obs.WErrs) == 0 {
-		switch {
-		case mixed:
-			res.Class = "mixed-record-types-in-tg"
-		case secsLost:
+		if secsLost {
 			res.Class = "variable-seconds-within-interval"
 		}
 	}
-	res.InDomain = obs.Code == 0 && !mixed && !secsLost
+	res.InDomain = obs.Code == 0 && !secsLost
 	res.Tags = []string{fmt.Sprintf("tgs=%d", len(obs.TGs)), fmt.Sprintf("buckets=%d", len(in.Buckets))}
 	if mixed {
 		res.Tags = append(res.Tags, "mixed-tg")
@@ -566,7 +563,7 @@ func init() {
 			"1-3 writes x 1-3 rows (same second / same interval / later intervals, year edges, nanoseconds 0 / 999999999 / small / random), " +
 			"each TG = one flush on a real master instance; single-write TGs go through the real WriteCSM 60% of the time; the recorded TG " +
 			"stream is replayed on a real replica instance by replication.Receiver.Run; distinct = distinct input JSON; non-trivial = inside " +
-			"the guard (homogeneous TGs, no seconds inside a variable interval) with >= 2 write sets",
+			"the guard (no seconds inside a variable interval) with >= 2 write sets",
 		Gen: c25Gen,
 		Run: c25Run,
 	})
